@@ -731,6 +731,19 @@ func (e *endpoint) watchPoll(ctx context.Context, pollingInterval uint32, nonRec
 		// Grab the scan lock.
 		e.lockScanLock(context.Background())
 
+		// Detect modifications relative to the most recent snapshot recorded by
+		// any scan, including those performed by Scan, because that is the
+		// last state that the controller may have seen. Comparing only against
+		// this loop's previous scan would miss a modification that reverts the
+		// root to that scan's state after Scan has observed something else. If
+		// such a snapshot exists, then we're not comparing against a
+		// zero-valued baseline and any modifications are genuine.
+		baseline := previous
+		if e.snapshot != nil {
+			baseline = e.snapshot
+			ignoreModifications = false
+		}
+
 		// Disable the use of the existing scan results.
 		e.accelerate = false
 
@@ -766,7 +779,7 @@ func (e *endpoint) watchPoll(ctx context.Context, pollingInterval uint32, nonRec
 		e.unlockScanLock()
 
 		// Check for modifications.
-		modified := !snapshot.Equal(previous)
+		modified := !snapshot.Equal(baseline)
 
 		// If we have a working non-recursive watcher, or we're performing trace
 		// logging, then perform a full diff to determine what's changed. This
